@@ -8024,6 +8024,29 @@ fn compare_wire_values(a: Option<&WireValue>, b: Option<&WireValue>) -> std::cmp
     }
 }
 
+/// Verification hooks: forwarders to the private sort/pagination helpers.
+#[cfg(feature = "verif-hooks")]
+pub fn verif_compare_wire_values(
+    a: Option<&WireValue>,
+    b: Option<&WireValue>,
+) -> std::cmp::Ordering {
+    compare_wire_values(a, b)
+}
+
+#[cfg(feature = "verif-hooks")]
+pub fn verif_sort_rows(rows: Vec<WireTuple>, order_by: &[(usize, SortDirection)]) -> Vec<WireTuple> {
+    sort_rows(rows, order_by)
+}
+
+#[cfg(feature = "verif-hooks")]
+pub fn verif_apply_pagination(
+    rows: Vec<WireTuple>,
+    limit: Option<usize>,
+    offset: Option<usize>,
+) -> Vec<WireTuple> {
+    apply_pagination(rows, limit, offset)
+}
+
 /// Assign a rank to each WireValue variant for stable cross-type ordering.
 fn wire_value_type_rank(v: &WireValue) -> u8 {
     match v {
